@@ -5,6 +5,7 @@ package safeprime
 
 import (
 	"crypto/rand"
+	"github.com/privacybydesign/gabi/internal/simhook"
 	"io"
 	"runtime"
 
@@ -28,8 +29,11 @@ func GenerateConcurrent(bitsize int, stop chan struct{}) (<-chan *big.Int, <-cha
 	// or sends a struct{}{} to it.
 	stopped := make(chan struct{})
 	go func() {
+		simhook.Spawned("safeprime.watcher")
+		defer simhook.Exited("safeprime.watcher")
 		select {
 		case <-stop:
+			simhook.Yield("safeprime.watcher:before-close")
 			close(stopped)
 		case <-stopped: // stopped can also be closed by a goroutine that encountered an error
 		}
@@ -38,9 +42,12 @@ func GenerateConcurrent(bitsize int, stop chan struct{}) (<-chan *big.Int, <-cha
 	// Start safe prime generation goroutines
 	for range count {
 		go func() {
+			simhook.Spawned("safeprime.worker")
+			defer simhook.Exited("safeprime.worker")
 			for {
 				// Pass stopped chan along; if closed, Generate() returns nil, nil
 				x, err := Generate(bitsize, stopped)
+				simhook.Yield("safeprime.worker:generated")
 				if err != nil {
 					errs <- err
 					close(stopped)
@@ -52,6 +59,7 @@ func GenerateConcurrent(bitsize int, stop chan struct{}) (<-chan *big.Int, <-cha
 				case <-stopped:
 					return
 				default:
+					simhook.Yield("safeprime.worker:before-send")
 					ints <- x
 					continue
 				}
@@ -106,6 +114,13 @@ func Generate(bitsize int, stop chan struct{}) (*big.Int, error) {
 NextCandidate:
 	for {
 		// Every 1000 iterations, check if we have been asked to stop
+		if stop != nil && simhook.Buggify("safeprime.Generate:extra-stop-check") {
+			select {
+			case <-stop:
+				return nil, nil
+			default:
+			}
+		}
 		i++
 		if stop != nil && i%1000 == 0 {
 			select {
